@@ -357,6 +357,27 @@ func forRuleSpecs(c *enumx.Ctx, visit func(c *enumx.Ctx, s spec)) {
 			}
 		}
 	}
+	// (b3) every field x every list TOGETHER WITH an explicit syscall list: the mask is exactly the requested bits
+	// whatever filter accompanies it (also on the lists whose rules the kernel matches without looking at the mask)
+	for _, f := range allFields {
+		if f == "key" {
+			continue
+		}
+		vals := valuesFor(f)
+		if len(vals) > 3 {
+			vals = vals[:3]
+		}
+		for _, v := range vals {
+			for _, l := range lists {
+				for _, sc := range [][]string{{"open"}, {"37", "200"}, {"read", "write", "2047"}} {
+					if !c.Mine() {
+						continue
+					}
+					visit(c, spec{List: l, Action: "always", Filters: []filt{{false, f, "=", v}}, Syscalls: sc})
+				}
+			}
+		}
+	}
 	// every small integer (tables keyed by small numbers: errno names, message types, file
 	// types, arches) for one representative of each numeric field class
 	for _, f := range []string{"exit", "msgtype", "a0", "pid", "inode", "success", "devmajor", "filetype", "pers", "saddr_fam", "auid", "gid"} {
